@@ -245,12 +245,22 @@ def gen_popon(rng, rich=True, ncaps=None, max_len=30):
             if rich and rng.random() < 0.15:
                 rows[-1]["italic_pac"] = True; rows[-1]["indent"] = 0
             rows[-1]["items"] = gen_row_items(rng, rng.randint(1, max_len), rich)
+        if rich and len(rows) >= 2 and rng.random() < 0.12:
+            # italics carried over several rows, adjacent or not: every row starts with an italic preamble
+            for rw_ in rows:
+                rw_["italic_pac"] = True; rw_["indent"] = 0
         words = []
         pre = [CMD["ENM"]] if rng.random() < 0.8 else []
         words += pre * (2 if doubled else 1)
         words += [CMD["RCL"]] * (2 if doubled else 1)
         for row in rows:
             words += row_words(row, doubled)
+        if rich and rows and rng.random() < 0.15:
+            # the cursor is parked on another row and nothing is written there: the screen does not change
+            lr = rows[-1]["row"]
+            cand = [x for x in (lr + 1, lr + 1, lr + 3, lr - 2) if 1 <= x <= 15]
+            if cand:
+                words += [pac(rng.choice(cand), rng.choice([0, 4, 8]))] * (2 if doubled else 1)
         edm_mode = rng.choice(["before_eoc", "before_eoc", "separate", "separate", "none", "after_eoc"])
         if edm_mode == "before_eoc":
             events.append(("edm", frame + len(words)))
@@ -353,7 +363,53 @@ def wf_popon(p):
 
 
 # ---------------------------------------------------------------- roll-up / paint-on programs
-def gen_rollup(rng, paint=False):
+def items_words(items, doubled):
+    """the words of a run of items (no preamble); control, special and extended codes doubled as units when `doubled`"""
+    return row_words({"row": 1, "indent": 0, "tab": 0, "italic_pac": False, "items": items}, False)[1:] if not doubled else \
+        row_words({"row": 1, "indent": 0, "tab": 0, "italic_pac": False, "items": items}, True)[2:]
+
+
+def rollup_rows(rng, lines, rows, frame, df, doubled, paint, depth, ru_once, nrows, first=True, rich=False):
+    K = tables()
+    specials = [(w, ch) for w, ch in K.SPECIAL_CHARS.items() if ch.strip()]
+    extended = list(K.EXTENDED_CHARS.items())
+    base_row = rng.choice([15, 15, 14, 10])
+    for k in range(nrows):
+        maxlen = rng.choice([32, 32, 31, 20, 9])
+        text = " ".join("".join(rng.choice(SAFE_CHARS[:52]) for _ in range(rng.randint(1, 7))) for _ in range(rng.randint(1, 6)))[:maxlen].rstrip()
+        if rng.random() < 0.15:
+            text = (text + "".join(rng.choice(SAFE_CHARS[:52]) for _ in range(32)))[:32]     # a full-width row
+        items = [("c", ch) for ch in text]
+        if rich and rng.random() < 0.5 and len(items) >= 3:
+            # a few special and extended characters (the latter sent as stand-in + code) replace basic ones
+            for _ in range(rng.randint(1, 3)):
+                j = rng.randrange(len(items))
+                if items[j][0] != "c" or items[j][1] == " " or (j and items[j - 1][0] != "c") or (j + 1 < len(items) and items[j + 1][0] != "c"):
+                    continue
+                if rng.random() < 0.5:
+                    w, ch = rng.choice(specials); items[j] = ("s", w, ch)
+                else:
+                    w, ch = rng.choice(extended); items[j] = ("e", rng.choice("AEIOUaeiou"), w, ch)
+            text = "".join(ch for ch, _ in row_cells({"italic_pac": False, "items": items}))
+        words = []
+        if paint:
+            r = rng.randint(1, 15)
+            words += [CMD["RDC"]] * (2 if doubled else 1)
+            words += [pac(r, 0)] * (2 if doubled else 1)
+        else:
+            if (k == 0 and first) or not ru_once or k == 0:
+                words += [CMD[depth]] * (2 if doubled else 1)
+            words += [CMD["CR"]] * (2 if doubled else 1)
+            words += [pac(base_row, 0)] * (2 if doubled else 1)
+        words += items_words(items, doubled)
+        lines.append(timecode(frame, df) + "\t" + " ".join(words))
+        lines.append("")
+        rows.append({"text": text, "frame": frame, "words": len(words)})
+        frame += len(words) + rng.choice([10, 30, 60, 90])
+    return frame
+
+
+def gen_rollup(rng, paint=False, rich=False):
     df = rng.random() < 0.5
     doubled = rng.random() < 0.5
     depth = rng.choice(["RU2", "RU3", "RU4"])
@@ -361,26 +417,40 @@ def gen_rollup(rng, paint=False):
     frame = rng.choice([0, 30, 900])
     lines = ["Scenarist_SCC V1.0", ""]
     rows = []
-    nrows = rng.randint(1, 8)
-    base_row = rng.choice([15, 15, 14, 10])
-    for k in range(nrows):
-        maxlen = rng.choice([32, 32, 31, 20, 9])
-        text = " ".join("".join(rng.choice(SAFE_CHARS[:52]) for _ in range(rng.randint(1, 7))) for _ in range(rng.randint(1, 6)))[:maxlen].rstrip()
-        if rng.random() < 0.15:
-            text = (text + "".join(rng.choice(SAFE_CHARS[:52]) for _ in range(32)))[:32]     # a full-width row
-        words = []
-        if paint:
-            r = rng.randint(1, 15)
-            words += [CMD["RDC"]] * (2 if doubled else 1)
-            words += [pac(r, 0)] * (2 if doubled else 1)
-        else:
-            if k == 0 or not ru_once:
-                words += [CMD[depth]] * (2 if doubled else 1)
-            words += [CMD["CR"]] * (2 if doubled else 1)
-            words += [pac(base_row, 0)] * (2 if doubled else 1)
-        words += chars_to_words(text)
-        lines.append(timecode(frame, df) + "\t" + " ".join(words))
-        lines.append("")
-        rows.append({"text": text, "frame": frame, "words": len(words)})
-        frame += len(words) + rng.choice([10, 30, 60, 90])
+    rollup_rows(rng, lines, rows, frame, df, doubled, paint, depth, ru_once, rng.randint(1, 8), rich=rich)
     return {"mode": "paint" if paint else "roll", "text": "\n".join(lines) + "\n", "rows": rows, "df": df, "doubled": doubled, "offset": 0, "ru_once": ru_once}
+
+
+def gen_mixed(rng, rich=False):
+    """a stream that changes mode: 2-4 stretches of paint-on / roll-up rows"""
+    df = rng.random() < 0.5
+    doubled = rng.random() < 0.5
+    frame = rng.choice([0, 30, 900])
+    lines = ["Scenarist_SCC V1.0", ""]
+    rows = []
+    mode = rng.random() < 0.5
+    for _ in range(rng.randint(2, 4)):
+        frame = rollup_rows(rng, lines, rows, frame, df, doubled, mode, rng.choice(["RU2", "RU3", "RU4"]), False, rng.randint(1, 3), rich=rich)
+        mode = not mode
+    return {"mode": "mixed", "text": "\n".join(lines) + "\n", "rows": rows, "df": df, "doubled": doubled, "offset": 0, "ru_once": False}
+
+
+def italic_rows_program(rng, doubled=False):
+    """one pop-on caption of 3-5 rows that are NOT adjacent, every row italic (italic preamble, or a mid-row code first)"""
+    n = rng.randint(3, 5)
+    start = rng.randint(1, 15 - 2 * (n - 1))
+    rows = []
+    for k in range(n):
+        items = [("c", ch) for ch in rng.choice(["TOP", "MID", "LOW", "ROW", "ab", "x y"])]
+        via_pac = rng.random() < 0.7
+        if not via_pac:
+            items = [("mid", True)] + items
+        rows.append({"row": start + 2 * k, "indent": 0 if via_pac else rng.choice([0, 4]), "tab": 0, "italic_pac": via_pac, "items": items})
+    words = [CMD["ENM"], CMD["RCL"]]
+    if doubled:
+        words = [w for w in words for _ in range(2)]
+    for r in rows:
+        words += row_words(r, doubled)
+    words += [CMD["EOC"]] * (2 if doubled else 1)
+    text = "Scenarist_SCC V1.0\n\n" + timecode(30, False) + "\t" + " ".join(words) + "\n\n" + timecode(300, False) + "\t" + CMD["EDM"] + "\n"
+    return {"mode": "pop", "text": text, "caps": [{"rows": rows}], "events": [], "df": False, "doubled": doubled, "offset": 0}
